@@ -50,12 +50,13 @@ class Gen:
         self.tok = 0
         self.monitors = set()
         self.speak = 0.08
+        self.fdcap = 0.0
 
     # ---- pieces
     def connect_ops(self, s, sub=True):
         u = self.rng.choice(self.uids)
         self.connected[s] = u
-        ops = [{'k': 'connect', 'uid': u}, {'k': 'hello'}]
+        ops = [{'k': 'connect', 'uid': u, 'fdcap': self.rng.random() < self.fdcap}, {'k': 'hello'}]
         if sub:
             ops.append({'k': 'addmatch', 'rule': NOC_RULE})
             self.rulesof[s] = [NOC_RULE]
@@ -201,6 +202,27 @@ class Gen:
             return {'k': 'rmmatch', 'rule': r}
         if k == 'close':
             return {'k': 'close'}
+        if k == 'fdsend':
+            kind = rng.choice(['signal', 'usignal', 'call', 'call'])
+            self.w, keep = dict(self.w), self.w
+            self.w = {kind: 1}
+            o = self.op(s)
+            self.w = keep
+            n = rng.choice([1, 1, 2, 3, 0])
+            o['fds'] = n
+            r = rng.random()
+            if r < 0.15 and n > 0:
+                o['nfd'] = n - 1            # surplus descriptor stays held
+            elif r < 0.22:
+                o['nfd'] = n + 1            # announces more than it brings (unless some are held)
+            elif r < 0.26:
+                o['fds'] = 17               # over the per-message maximum
+            if rng.random() < 0.2:
+                o['join'] = True            # written together with the next message
+            elif rng.random() < 0.3:
+                o['split'] = rng.choice([1, 4, 8, 12, 15, 16, 17, 24, 40])   # first chunk (with the descriptors), then the rest
+            o.pop('forge', None)
+            return o
         if k == 'hello':
             return {'k': 'hello'}
         if k == 'monitor':
